@@ -24,7 +24,7 @@ from typing import List, Optional
 
 from hypothesis import strategies as st
 
-from ..core import CaseResult, Family, Violation
+from ..core import CaseResult, Family, Violation, pick
 from ..engines.memwire import Pair, asyncssh
 
 PROPERTY_ID = 'C19'
@@ -929,9 +929,9 @@ def drain_stream(h, chunker, rm, enc, how, labels, eof_check):
 
 
 def sep_strategy(alpha: str):
-    unit = st.sampled_from(alpha)
+    unit = pick(alpha)
     word = st.text(unit, min_size=1, max_size=3)
-    single = st.one_of(st.sampled_from(['\n', '>', '<>', 'ab', '01', 'b\n']),
+    single = st.one_of(pick(['\n', '>', '<>', 'ab', '01', 'b\n']),
                        word).map(lambda s: ['s', s])
 
     def ext(base):
@@ -952,10 +952,10 @@ def sep_strategy(alpha: str):
 
 
 def stream_strategy(alpha: str, pool, max_tokens: int):
-    unit = st.sampled_from(alpha)
-    token = st.one_of(st.text(unit, max_size=6), st.sampled_from(pool),
-                      st.sampled_from(pool), st.just('\n'),
-                      st.sampled_from(['<0>', '>>', 'aab', '1<', '<a>']))
+    unit = pick(alpha)
+    token = st.one_of(st.text(unit, max_size=6), pick(pool),
+                      pick(pool), st.just('\n'),
+                      pick(['<0>', '>>', 'aab', '1<', '<a>']))
     return st.lists(token, max_size=max_tokens).map(''.join)
 
 
@@ -963,13 +963,13 @@ def n_strategy(win: int, pkt: int):
     base = sorted({max(0, min(v, 5000)) for v in
                    (0, 1, 2, 3, pkt - 1, pkt, pkt + 1, win - 1, win, win + 1,
                     2 * win + 1, 3 * win)})
-    return st.one_of(st.sampled_from(base), st.integers(0, 40))
+    return st.one_of(pick(base), st.integers(0, 40))
 
 
 def op_strategy(win: int, pkt: int, seps, cancel: bool):
     nst = n_strategy(win, pkt)
     small = st.integers(0, 6)
-    sepof = st.sampled_from(seps)
+    sepof = pick(seps)
     build = {
         'read': nst.map(lambda n: ['read', n]),
         'read-small': small.map(lambda n: ['read', n]),
@@ -990,13 +990,13 @@ def op_strategy(win: int, pkt: int, seps, cancel: bool):
     if cancel:
         kinds.append('untilc')
 
-    return st.sampled_from(kinds).flatmap(lambda k: build[k])
+    return pick(kinds).flatmap(lambda k: build[k])
 
 
 def end_strategy():
-    sig = st.tuples(st.sampled_from(['TERM', 'KILL', 'INT', 'USR1']),
-                    st.booleans(), st.sampled_from(['', 'boom', 'déjà']),
-                    st.sampled_from(['', 'en-US'])).map(
+    sig = st.tuples(pick(['TERM', 'KILL', 'INT', 'USR1']),
+                    st.booleans(), pick(['', 'boom', 'déjà']),
+                    pick(['', 'en-US'])).map(
                         lambda t: ['signal', t[0], t[1], t[2], t[3]])
     ext = st.integers(0, 300).map(lambda s: ['exit', s])
     base = st.one_of(ext, ext, sig, st.just(['close']))
@@ -1010,20 +1010,20 @@ def reader_strategy(tier: str):
 
     @st.composite
     def build(draw):
-        enc = draw(st.sampled_from(ENCODINGS))
+        enc = draw(pick(ENCODINGS))
         alpha = ALPHA_T if enc else ALPHA_B
-        win = draw(st.sampled_from(WINDOWS))
-        pkt = draw(st.sampled_from(PKTSIZES))
+        win = draw(pick(WINDOWS))
+        pkt = draw(pick(PKTSIZES))
         sepst = sep_strategy(alpha)
         seps = draw(st.lists(sepst, min_size=1, max_size=3))
         pool = [s for spec in seps if spec[0] in 'st'
                 for s in ([spec[1]] if spec[0] == 's' else spec[1])] or ['\n']
         out = draw(stream_strategy(alpha, pool, max_tokens))
-        mode = draw(st.sampled_from(['seq', 'seq', 'conc']))
+        mode = draw(pick(['seq', 'seq', 'conc']))
 
         if mode == 'seq':
             # a stream nobody reads must fit the window beside stdout
-            err = draw(st.text(st.sampled_from(alpha),
+            err = draw(st.text(pick(alpha),
                                max_size=max(0, min(win - 1, 12))))
         else:
             err = draw(stream_strategy(alpha, pool, max_tokens // 2))
@@ -1033,7 +1033,7 @@ def reader_strategy(tier: str):
         eops = draw(st.lists(op, max_size=max_ops // 2)) \
             if mode == 'conc' else []
         wsz = st.one_of(st.integers(0, 12),
-                        st.sampled_from([1, pkt, win, win + 1, 1000]))
+                        pick([1, pkt, win, win + 1, 1000]))
         script = draw(st.lists(st.one_of(
             wsz.map(lambda n: ['o', n]), wsz.map(lambda n: ['o', n]),
             wsz.map(lambda n: ['e', n]), st.just(['drain']),
@@ -1044,12 +1044,12 @@ def reader_strategy(tier: str):
         case = {'enc': enc, 'win': win, 'pkt': pkt, 'out': out, 'err': err,
                 'script': script, 'end': draw(end_strategy()),
                 'ops': ops, 'eops': eops, 'mode': mode,
-                'final': draw(st.sampled_from(['readall', 'line', 'read1',
+                'final': draw(pick(['readall', 'line', 'read1',
                                                'iter'])),
                 'chunks': chunks,
-                'capi': draw(st.sampled_from(['session', 'process'])),
-                'sapi': draw(st.sampled_from(['session', 'process'])),
-                'hw': draw(st.sampled_from([None, None, 0, 4, 64]))}
+                'capi': draw(pick(['session', 'process'])),
+                'sapi': draw(pick(['session', 'process'])),
+                'hw': draw(pick([None, None, 0, 4, 64]))}
         return case
 
     return build()
@@ -1206,10 +1206,10 @@ def srvreader_strategy(tier: str):
 
     @st.composite
     def build(draw):
-        enc = draw(st.sampled_from(ENCODINGS))
+        enc = draw(pick(ENCODINGS))
         alpha = ALPHA_T if enc else ALPHA_B
-        win = draw(st.sampled_from([3, 8, 16, 64, 64, 4096, 2097152]))
-        pkt = draw(st.sampled_from(PKTSIZES))
+        win = draw(pick([3, 8, 16, 64, 64, 4096, 2097152]))
+        pkt = draw(pick(PKTSIZES))
         sepst = sep_strategy(alpha)
         seps = draw(st.lists(sepst, min_size=1, max_size=3))
         pool = [s for spec in seps if spec[0] in 'st'
@@ -1217,16 +1217,16 @@ def srvreader_strategy(tier: str):
         data = stream_strategy(alpha, pool, 6).map(
             lambda s: ['d', s or 'a\n'])
         exc = st.one_of(
-            st.sampled_from(['INT', 'TERM', 'HUP', 'USR1']).map(
+            pick(['INT', 'TERM', 'HUP', 'USR1']).map(
                 lambda n: ['signal', n]),
-            st.sampled_from([0, 1, 500, 4294967295]).map(
+            pick([0, 1, 500, 4294967295]).map(
                 lambda n: ['break', n]),
             st.tuples(st.integers(0, 300), st.integers(0, 100),
-                      st.sampled_from([0, 640]), st.sampled_from([0, 480]))
+                      pick([0, 640]), pick([0, 480]))
             .map(lambda t: ['size'] + list(t))).map(lambda d: ['x', d])
         # 0..2 writes between two exceptions
         slot = st.lists(data, max_size=2)
-        nexc = draw(st.sampled_from([0, 1, 1, 2, 2, 3, 4]))
+        nexc = draw(pick([0, 1, 1, 2, 2, 3, 4]))
         items = []
 
         for _ in range(nexc):
@@ -1237,15 +1237,15 @@ def srvreader_strategy(tier: str):
         op = op_strategy(win, pkt, seps, False)
         return {'enc': enc, 'win': win, 'pkt': pkt, 'items': items,
                 'ops': draw(st.lists(op, max_size=max_ops)),
-                'end': draw(st.sampled_from(['eof', 'eof', 'close'])),
-                'final': draw(st.sampled_from(['readall', 'line', 'read1',
+                'end': draw(pick(['eof', 'eof', 'close'])),
+                'final': draw(pick(['readall', 'line', 'read1',
                                                'iter'])),
-                'gap': draw(st.sampled_from([0, 0, 1, 3])),
+                'gap': draw(pick([0, 0, 1, 3])),
                 'chunks': draw(st.one_of(
                     st.just([]), st.just([1]),
                     st.lists(st.integers(1, 400), min_size=1, max_size=5))),
-                'capi': draw(st.sampled_from(['session', 'process'])),
-                'sapi': draw(st.sampled_from(['session', 'process']))}
+                'capi': draw(pick(['session', 'process'])),
+                'sapi': draw(pick(['session', 'process']))}
 
     return build()
 
@@ -1582,12 +1582,12 @@ def process_strategy(tier: str):
 
     @st.composite
     def build(draw):
-        enc = draw(st.sampled_from(ENCODINGS))
+        enc = draw(pick(ENCODINGS))
         alpha = ALPHA_T if enc else ALPHA_B
-        win = draw(st.sampled_from(WINDOWS))
-        pkt = draw(st.sampled_from(PKTSIZES))
+        win = draw(pick(WINDOWS))
+        pkt = draw(pick(PKTSIZES))
         big = st.integers(0, 3).flatmap(
-            lambda k: st.text(st.sampled_from(alpha), min_size=1,
+            lambda k: st.text(pick(alpha), min_size=1,
                               max_size=4).map(
                 lambda s: (s * (1 + 70 * k * (tier != 'quick') + 9 * k))))
         out = draw(st.one_of(stream_strategy(alpha, ['\n'], max_tokens),
@@ -1595,17 +1595,17 @@ def process_strategy(tier: str):
         err = draw(st.one_of(st.just(''),
                              stream_strategy(alpha, ['\n'], max_tokens // 2)))
         wsz = st.one_of(st.integers(0, 12),
-                        st.sampled_from([1, pkt, win, win + 1, 1000]))
+                        pick([1, pkt, win, win + 1, 1000]))
         script = draw(st.lists(st.one_of(
             wsz.map(lambda n: ['o', n]), wsz.map(lambda n: ['o', n]),
             wsz.map(lambda n: ['e', n]), st.just(['drain']),
             st.just(['yield'])), max_size=8))
-        client = draw(st.sampled_from(['run', 'run', 'wait', 'wait', 'wait',
+        client = draw(pick(['run', 'run', 'wait', 'wait', 'wait',
                                        'communicate', 'communicate',
                                        'timeout']))
         end = ['hang'] if client == 'timeout' else draw(
             end_strategy().filter(lambda e: e != ['eof']))
-        inp = draw(st.one_of(st.none(), st.text(st.sampled_from(alpha),
+        inp = draw(st.one_of(st.none(), st.text(pick(alpha),
                                                 max_size=40)))
         pre = []
 
@@ -1618,7 +1618,7 @@ def process_strategy(tier: str):
             if client == 'timeout' or client == 'communicate' and inp:
                 # no EOF / the server waits for input first: stream reads
                 # could block for good
-                op = st.sampled_from([['pumpall'], ['collect']])
+                op = pick([['pumpall'], ['collect']])
             pre = draw(st.lists(op, max_size=4))
 
         if client != 'run' and draw(st.integers(0, 2)) == 0:
@@ -1628,12 +1628,12 @@ def process_strategy(tier: str):
                 'script': script, 'end': end, 'client': client,
                 'input': inp, 'srv_reads': draw(st.booleans()),
                 'check': draw(st.booleans()), 'pre': pre,
-                'merge': draw(st.sampled_from([False, False, False, True])),
-                'hw': draw(st.sampled_from([None, None, 0, 4, 64])),
+                'merge': draw(pick([False, False, False, True])),
+                'hw': draw(pick([None, None, 0, 4, 64])),
                 'chunks': draw(st.one_of(
                     st.just([]), st.just([1]),
                     st.lists(st.integers(1, 400), min_size=1, max_size=5))),
-                'sapi': draw(st.sampled_from(['session', 'process']))}
+                'sapi': draw(pick(['session', 'process']))}
 
     return build()
 
@@ -2259,19 +2259,19 @@ def redirect_strategy(tier: str):
 
     @st.composite
     def build(draw):
-        enc = draw(st.sampled_from(ENCODINGS))
+        enc = draw(pick(ENCODINGS))
         alpha = ALPHA_T if enc else ALPHA_B
-        win = draw(st.sampled_from([1, 3, 8, 64, 4096, 2097152]))
-        pkt = draw(st.sampled_from(PKTSIZES))
-        swin = draw(st.sampled_from([1, 3, 8, 64, 4096, 2097152]))
-        spkt = draw(st.sampled_from(PKTSIZES))
+        win = draw(pick([1, 3, 8, 64, 4096, 2097152]))
+        pkt = draw(pick(PKTSIZES))
+        swin = draw(pick([1, 3, 8, 64, 4096, 2097152]))
+        spkt = draw(pick(PKTSIZES))
         text = stream_strategy(alpha, ['\n'], max_tokens)
         kinds = [k for k in SRC_KINDS if enc or k != 'textfile']
-        kin = draw(st.sampled_from([None, None] + kinds))
+        kin = draw(pick([None, None] + kinds))
         tk = [k for k in TGT_KINDS if (enc or k != 'textfile') and
               (k != 'sshwriter' or kin != 'sshreader')]
-        kout = draw(st.sampled_from(tk))
-        kerr = draw(st.sampled_from(
+        kout = draw(pick(tk))
+        kerr = draw(pick(
             [k for k in ('PIPE', 'PIPE', 'devnull', 'path', 'stream',
                          'stdout', 'file')]))
         send_eof = draw(st.booleans())
@@ -2296,7 +2296,7 @@ def redirect_strategy(tier: str):
             sin = {'kind': kin, 'data': '' if kin == 'devnull' else data}
 
         wsz = st.one_of(st.integers(0, 12),
-                        st.sampled_from([1, pkt, win, win + 1, 1000]))
+                        pick([1, pkt, win, win + 1, 1000]))
         script = draw(st.lists(st.one_of(
             wsz.map(lambda n: ['o', n]), wsz.map(lambda n: ['o', n]),
             wsz.map(lambda n: ['e', n]), st.just(['drain']),
@@ -2317,13 +2317,13 @@ def redirect_strategy(tier: str):
                 'stdin': sin, 'stdout': kout, 'stderr': kerr,
                 'send_eof': send_eof, 'recv_eof': recv_eof,
                 'bufsize': 8192 if big else draw(
-                    st.sampled_from([7, 128, 8192])),
+                    pick([7, 128, 8192])),
                 'late': late,
-                'hw': draw(st.sampled_from([None, None, 0, 64])),
+                'hw': draw(pick([None, None, 0, 64])),
                 'chunks': draw(st.one_of(
                     st.just([]), st.just([1]),
                     st.lists(st.integers(1, 400), min_size=1, max_size=5))),
-                'sapi': draw(st.sampled_from(['session', 'process']))}
+                'sapi': draw(pick(['session', 'process']))}
 
     return build()
 
@@ -2574,15 +2574,15 @@ def run_drain(case) -> CaseResult:
 def drain_strategy(tier: str):
     @st.composite
     def build(draw):
-        high = draw(st.sampled_from([0, 1, 8, 64, 1000, 65536]))
+        high = draw(pick([0, 1, 8, 64, 1000, 65536]))
         low = draw(st.one_of(st.none(), st.integers(0, high)))
-        win = draw(st.sampled_from([1, 8, 64, 4096]))
-        pkt = draw(st.sampled_from([1, 7, 64, 32768]))
+        win = draw(pick([1, 8, 64, 4096]))
+        pkt = draw(pick([1, 7, 64, 32768]))
         cap = 140000 if min(win, pkt) >= 64 else 1500
         sizes = sorted({min(cap, max(0, v)) for v in
                         (0, 1, high - 1, high, high + 1, high + win,
                          high + win + 1, 2 * high + 2 * win + 3, win)})
-        writes = draw(st.lists(st.one_of(st.sampled_from(sizes),
+        writes = draw(st.lists(st.one_of(pick(sizes),
                                          st.integers(0, 40)),
                                min_size=1, max_size=4))
 
@@ -2590,17 +2590,17 @@ def drain_strategy(tier: str):
             writes.pop()
 
         rsz = st.one_of(st.integers(1, 50),
-                        st.sampled_from([1, win, high + 1, 100000]))
-        return {'enc': draw(st.sampled_from([None, 'utf-8'])),
-                'side': draw(st.sampled_from(['client', 'server'])),
-                'stream': draw(st.sampled_from(['o', 'o', 'e'])),
-                'capi': draw(st.sampled_from(['session', 'process'])),
-                'sapi': draw(st.sampled_from(['session', 'process'])),
+                        pick([1, win, high + 1, 100000]))
+        return {'enc': draw(pick([None, 'utf-8'])),
+                'side': draw(pick(['client', 'server'])),
+                'stream': draw(pick(['o', 'o', 'e'])),
+                'capi': draw(pick(['session', 'process'])),
+                'sapi': draw(pick(['session', 'process'])),
                 'win': win, 'pkt': pkt, 'high': high, 'low': low,
                 'writes': writes or [0],
                 'reads': draw(st.lists(rsz, max_size=4)),
                 'readsize': max(draw(rsz), 16 if cap > 1500 else 1),
-                'finish': draw(st.sampled_from(['read', 'read', 'peer-close',
+                'finish': draw(pick(['read', 'read', 'peer-close',
                                                 'abort', 'cut'])),
                 'chunks': draw(st.one_of(
                     st.just([]), st.just([1]) if cap <= 1500 else
